@@ -1242,7 +1242,7 @@ def listed_in_view(repo, col, R):
                       f"lists the column {t.args[1].name!r}", node=fi.node)
         else:
             cols = sorted({str(x.args[1].name) for x in T.find_all(r, lambda x: x.op == "sub" and x.args[0].op == "attr" and x.args[0].name == "nodes" and x.args[1].op == "const")})
-            derived = any(c.startswith("local_") for c in cols) or T.find(r, lambda x: x.op in ("bin", "binop", "arith") or (x.op == "call" and x.name in ("arange", "range"))) is not None
+            derived = any(c.startswith("local_") for c in cols) or T.find(r, lambda x: x.op in ("bin", "binop", "arith") or (x.op in ("call", "mcall") and x.name in ("arange", "range"))) is not None
             col.add(R, fi, f"{cls_}.{nm} lists the distinct values of the view's {colname} column", "VIOLATED" if derived else "UNDECIDED",
                     f"returns {r.short(110)} (columns {cols}): " + ("the global indices are reconstructed from other numbering, which is right only "
                     "for a contiguous range of cells / branches / compartments; a view may hold any subset (cells [0, 2, 5])" if derived else "form not recognised"),
